@@ -229,12 +229,28 @@ struct EbObj : ObjBase<EbObj, eb_t> {
 
 // ---- 7: HLL -------------------------------------------------------------------------------------------
 typedef hll_sketch_alloc<talloc<uint8_t>> hll_t;
+// block-level shape of an hll_sketch impl: mode (0 list, 1 set, 2 HLL array), lg_k, target type, ints of the coupon array,
+// ints of the aux hash map array (0 = no aux map)  -- model input of the HLL block ledger
+inline void hll_shape(const hll_t& s, Out& o) {
+  typedef talloc<uint8_t> A;
+  HllSketchImpl<A>* impl = s.sketch_impl;
+  if (impl == nullptr) { o.E(9); o.E(0); o.E(0); o.E(0); o.E(0); return; }
+  const int mode = (int)impl->getCurMode();
+  o.E(mode == (int)hll_mode::LIST ? 0 : mode == (int)hll_mode::SET ? 1 : 2); o.E((I)impl->getLgConfigK()); o.E((I)(int)impl->getTgtHllType());
+  if (mode != (int)hll_mode::HLL) { o.E((I)static_cast<CouponList<A>*>(impl)->coupons_.size()); o.E(0); }
+  else { AuxHashMap<A>* aux = static_cast<HllArray<A>*>(impl)->getAuxHashMap(); o.E(0); o.E(aux ? (I)(1u << aux->getLgAuxArrInts()) : (I)0); }
+}
+inline void hll_sizes(Out& o) {
+  typedef talloc<uint8_t> A;
+  o.E((I)sizeof(CouponList<A>)); o.E((I)sizeof(CouponHashSet<A>)); o.E((I)sizeof(Hll4Array<A>)); o.E((I)sizeof(Hll6Array<A>)); o.E((I)sizeof(Hll8Array<A>));
+  o.E((I)sizeof(AuxHashMap<A>));
+}
 struct HllObj : ObjBase<HllObj, hll_t> {
   using ObjBase::ObjBase;
   int kind() const override { return 7; }
-  void update(int64_t v, int64_t, bool, Out&) override { s.update((uint64_t)v); }
+  void update(int64_t v, int64_t, bool, Out& o) override { s.update((uint64_t)v); hll_shape(s, o); }
   void reset() override { s.reset(); }
-  long retained() const override { return (long)s.is_empty(); }
+  long retained() const override { return 0; }
   void query() override { (void)s.get_estimate(); (void)s.get_composite_estimate(); }
   uint64_t digest() const override { auto b = s.serialize_updatable(); return fnv(b.data(), b.size()); }
   Obj* roundtrip() const override { auto b = s.serialize_compact(); return new HllObj(hll_t::deserialize(b.data(), b.size(), s.sketch_impl->getAllocator())); }
@@ -372,11 +388,11 @@ typedef hll_union_alloc<talloc<uint8_t>> hu_t;
 struct HuObj : ObjBase<HuObj, hu_t> {
   using ObjBase::ObjBase;
   int kind() const override { return 15; }
-  void update(int64_t v, int64_t, bool, Out&) override { s.update((uint64_t)v); }
+  void update(int64_t v, int64_t, bool, Out& o) override { s.update((uint64_t)v); hll_shape(s.gadget_, o); }
   void merge(const Obj& o) override { const HllObj* p = dynamic_cast<const HllObj*>(&o); if (!p) throw std::invalid_argument("kind mismatch"); s.update(p->s); }
   void merge_move(Obj& o) override { HllObj* p = dynamic_cast<HllObj*>(&o); if (!p) throw std::invalid_argument("kind mismatch"); s.update(std::move(p->s)); }
   void reset() override { s.reset(); }
-  long retained() const override { return (long)s.is_empty(); }
+  long retained() const override { return 0; }
   void query() override { (void)s.get_estimate(); (void)s.get_composite_estimate(); }
   uint64_t digest() const override { auto r = s.get_result(HLL_8); auto b = r.serialize_compact(); return fnv(b.data(), b.size()); }
   Obj* result(long t) const override { return new HllObj(s.get_result((target_hll_type)(t < 0 || t > 2 ? 0 : t))); }
